@@ -196,6 +196,13 @@ func (e *vfRouteExec) apply(a string) error {
 			return fmt.Errorf("action %s not enabled", a)
 		}
 		e.logf("T%d completes task %d", t.idx, id)
+	case "doneall":
+		// the target completes everything it has received so far (micro scripts)
+		ts := e.tgt[arg(1)-1].cur()
+		for i := range ts.queue {
+			ts.queue[i].done = true
+		}
+		e.logf("T%d completes everything it has received", arg(1))
 	case "tick":
 		e.tick(e.tgt[arg(1)-1])
 	case "accept":
